@@ -150,16 +150,21 @@ DropLastMarkup(ws) ==
 \* the words a reader of the skool file sees in a comment written as ws
 Rendered(ws) == IF Braced(ws) THEN DropLastMarkup(DropFirstMarkup(ws)) ELSE ws
 
-\* Extent of an instruction comment in a skool file.  Rows are records with kind ("i" = instruction
-\* or comment-continuation row), op (0 on a continuation row) and w (the words of the comment part).
+\* Extent of an instruction comment in a skool file.  A recorded line is the tuple
+\*   <<kind, w, n, wl, cl, fl, op, addr, rs, warn, tab, cols, lf>>
+\* of which only kind ("i" = instruction or comment-continuation row), w (the words of the comment part)
+\* and op (0 on a continuation row) matter here.
 \* The comment of the instruction at row p consists of that row and the continuation rows after it;
 \* if it starts with '{' it goes on over the following instructions until the braces balance.
+RowKind(l) == l[1]
+RowWords(l) == l[2]
+RowOp(l) == l[7]
 RECURSIVE InstrEnd(_, _)
-InstrEnd(o, p) == IF p + 1 <= Len(o) /\ o[p + 1].kind = "i" /\ o[p + 1].op = 0 THEN InstrEnd(o, p + 1) ELSE p
-WordsIn(o, a, b) == Flatten([j \in 1..(b - a + 1) |-> o[a + j - 1].w])
+InstrEnd(o, p) == IF p + 1 <= Len(o) /\ RowKind(o[p + 1]) = "i" /\ RowOp(o[p + 1]) = 0 THEN InstrEnd(o, p + 1) ELSE p
+WordsIn(o, a, b) == Flatten([j \in 1..(b - a + 1) |-> RowWords(o[a + j - 1])])
 RECURSIVE BraceExt(_, _, _)
 BraceExt(o, e, nest) ==
-  IF nest <= 0 \/ e + 1 > Len(o) \/ o[e + 1].kind # "i" THEN e
+  IF nest <= 0 \/ e + 1 > Len(o) \/ RowKind(o[e + 1]) # "i" THEN e
   ELSE LET e2 == InstrEnd(o, e + 1)
            ws == WordsIn(o, e + 1, e2)
        IN BraceExt(o, e2, nest + Opens(ws) - Closes(ws))
